@@ -303,7 +303,12 @@ func C13(c *Ctx) {
 	var suspectMu sync.Mutex
 	var suspects []int
 	defer func() {
-		for _, i := range suspects {
+		for n, i := range suspects {
+			if n >= 4 {
+				// (each second run may take the full wall limit: four of them decide, the rest is only counted)
+				c.Inconclusive("cpu_overrun_not_run_a_second_time")
+				continue
+			}
 			j := jobs[i]
 			res, _, _ := run(j, j.flags)
 			if res.Killed && res.CPU > 30*time.Second {
